@@ -28,6 +28,7 @@ func init() {
 			{Name: fmt.Sprintf("req-connection-loss-hist-D%d", d+1), Mode: "hist", Bound: 0, Reset: kit.ResetGlobals,
 				Body: func() { histFaults(d + 1) }, NeedCounters: []string{"stale-ignored", "reply-delivered", "retransmitted", "send-waited-for-a-peer", "abandoned-while-queued", "stale-after-queued-abandon-ignored", "given-up-after-loss-without-retry"}},
 			{Name: "req-sched-send-recv-reply", Mode: "sched", Bound: b, Reset: kit.ResetGlobals, Body: schedSendRecvReply},
+			{Name: "req-shared-message-two-contexts", Mode: "sched", Bound: b, Reset: kit.ResetGlobals, Body: schedSharedMessage},
 			{Name: "req-sched-two-ctx", Mode: "sched", Bound: b, Reset: kit.ResetGlobals, Body: schedTwoCtx},
 		}
 	})
@@ -675,6 +676,63 @@ func schedTwoCtx() {
 	if !r3.Done() || r3.Err != mangos.ErrProtoState {
 		kit.Failf("sched2-second-recv", "second Recv on a: done=%v %s / %v", r3.Done(), kit.ErrName(r3.Err), r3.Val)
 	}
+}
+
+// schedSharedMessage: the application sends one message, cloned, as a request on two contexts
+// (connection 0 may be slow to take what it is given).  Two requests with two different ids and
+// the same body go out, and each context receives the reply carrying its own id.
+func schedSharedMessage() {
+	w := setup(2)
+	hold := kit.ChooseFree(2) == 1
+	if hold {
+		w.pipes[0].Hold(true)
+	}
+	m1 := mangos.NewMessage(16)
+	m1.Body = append(m1.Body, "shared-request"...)
+	m1.Clone() // a second reference to the same message
+	a, b := w.ctxs[0], w.ctxs[1]
+	s1 := kit.Start("SendMsg:sock", func() (interface{}, error) { return nil, a.s.SendMsg(m1) })
+	s2 := kit.Start("SendMsg:ctx1", func() (interface{}, error) { return nil, b.c.SendMsg(m1) })
+	kit.Quiesce()
+	if hold {
+		w.pipes[0].Hold(false)
+		w.pipes[0].Take(10)
+		kit.Quiesce()
+	}
+	if !s1.Done() || s1.Err != nil || !s2.Done() || s2.Err != nil {
+		kit.Failf("shared-send", "SendMsg of a cloned message on two contexts: sock done=%v %s, ctx1 done=%v %s", s1.Done(), kit.ErrName(s1.Err), s2.Done(), kit.ErrName(s2.Err))
+	}
+	wire := w.newWire()
+	if len(wire) != 2 {
+		kit.Failf("shared-wire-count", "two requests produced %d transport messages", len(wire))
+	}
+	x, y := binary.BigEndian.Uint32(wire[0].Data), binary.BigEndian.Uint32(wire[1].Data)
+	if x == y {
+		kit.Failf("shared-request-id", "both requests went out under the id %08x (one message, cloned, sent on two contexts)", x)
+	}
+	for _, sm := range wire {
+		if string(sm.Data[4:]) != "shared-request" {
+			kit.Failf("shared-request-body", "request body %q", sm.Data[4:])
+		}
+	}
+	for i, id := range []uint32{x, y} {
+		w.pipes[i%2].Deliver(reply(id, fmt.Sprintf("answer-to-%08x", id)))
+	}
+	kit.Quiesce()
+	got := map[string]string{}
+	for _, m := range []*mctx{a, b} {
+		m := m
+		c := kit.Start("Recv:"+m.name, func() (interface{}, error) { v, err := m.recvCall(); return string(v), err })
+		kit.Quiesce()
+		if !c.Done() || c.Err != nil {
+			kit.Failf("shared-no-answer", "%s: its request was answered, Recv: done=%v %s", m.name, c.Done(), kit.ErrName(c.Err))
+		}
+		got[m.name] = c.Val.(string)
+	}
+	if got["sock"] == got["ctx1"] {
+		kit.Failf("shared-answer-misrouted", "both contexts received %q", got["sock"])
+	}
+	kit.Observe("hold=%v", hold)
 }
 
 // Bodies re-run by C11 under the race-instrumented build.
